@@ -724,10 +724,47 @@ func (g *vcgen) libFacts(v ssa.Value) {
 // site; ok=false if f may be called from outside the analysed code (exported, or used as a value) or has no callers.
 func vcVariants(ins ssa.Instruction, depth int) (out [][3]interface{}, ok bool) {
 	f := ins.Parent()
-	if f == nil || f.Parent() != nil || token.IsExported(f.Name()) || vcValueUse[f] || len(vcCallers[f]) == 0 {
+	internal := func(f *ssa.Function) bool {
+		return f != nil && f.Parent() == nil && !token.IsExported(f.Name()) && !vcValueUse[f] && len(vcCallers[f]) > 0
+	}
+	if !internal(f) {
 		return nil, false
 	}
-	for _, ci := range vcCallers[f] {
+	// call chains: the site calling f, then (while the caller is itself an internal helper) a site calling that caller, …
+	// up to three levels.  Every chain is one way control reaches the instruction; the condition must hold on each.
+	var chains [][]ssa.CallInstruction
+	var grow func(chain []ssa.CallInstruction, fn *ssa.Function, level int)
+	grow = func(chain []ssa.CallInstruction, fn *ssa.Function, level int) {
+		if len(chains) > 48 {
+			return
+		}
+		if level >= 3 || !internal(fn) {
+			chains = append(chains, append([]ssa.CallInstruction(nil), chain...))
+			return
+		}
+		for _, ci := range vcCallers[fn] {
+			rec := false
+			for _, prev := range chain {
+				if prev == ci {
+					rec = true
+				}
+			}
+			if rec || ci.Parent() == fn {
+				chains = append(chains, append([]ssa.CallInstruction(nil), chain...))
+				continue
+			}
+			grow(append(chain, ci), ci.Parent(), level+1)
+		}
+	}
+	grow(nil, f, 0)
+	if len(chains) > 48 {
+		// too many ways in: one level only
+		chains = nil
+		for _, ci := range vcCallers[f] {
+			chains = append(chains, []ssa.CallInstruction{ci})
+		}
+	}
+	for _, chain := range chains {
 		g := newVC()
 		goal, gok := g.goalFor(ins)
 		if !gok {
@@ -735,28 +772,32 @@ func vcVariants(ins ssa.Instruction, depth int) (out [][3]interface{}, ok bool) 
 		}
 		g.guards(ins.Block())
 		g.earlier(ins)
-		c := ci.Common()
-		args := c.Args
-		for i, p := range f.Params {
-			if i >= len(args) {
-				continue
+		callee := f
+		for _, ci := range chain {
+			c := ci.Common()
+			args := c.Args
+			for i, p := range callee.Params {
+				if i >= len(args) {
+					continue
+				}
+				if n, ok := g.names[p]; ok {
+					g.hyp(n + " = " + g.lin(args[i]))
+				}
+				if n, ok := g.lens[p]; ok {
+					g.hyp(n + " = " + g.lenOf(args[i]))
+					g.libFacts(args[i])
+				}
+				if n, ok := g.caps[p]; ok {
+					g.hyp(n + " = " + g.capOf(args[i]))
+				}
 			}
-			if n, ok := g.names[p]; ok {
-				g.hyp(n + " = " + g.lin(args[i]))
-			}
-			if n, ok := g.lens[p]; ok {
-				g.hyp(n + " = " + g.lenOf(args[i]))
-				g.libFacts(args[i])
-			}
-			if n, ok := g.caps[p]; ok {
-				g.hyp(n + " = " + g.capOf(args[i]))
-			}
+			g.guards(ci.Block())
+			callee = ci.Parent()
 		}
-		g.guards(ci.Block())
 		sort.Strings(g.hyps)
 		out = append(out, [3]interface{}{g.vars, g.hyps, goal})
 	}
-	return out, true
+	return out, len(out) > 0
 }
 
 func (g *vcgen) goalFor(ins ssa.Instruction) (goal string, ok bool) {
